@@ -268,6 +268,11 @@ def run(repo, chk):
     hv, ok_hv = call_aggregates(repo, "hasval")
     chk.ob("R13.4", "selector.Call.hasval:sees-nested-constraints", ok_hv, hv.where,
            "whether the capture check is installed at all is decided by Call.hasval over the captures AND the child calls: a receiver constraint on a nested level (`run_all > obj.meth > v`) still filters")
+    from .shared import shared_value_mutations
+    muts = shared_value_mutations(repo, {"selector.Element", "selector.Call"})
+    chk.ob("R13.4", "selector:receiver-constraints-are-not-shared-between-selectors", not muts, "ptera/selector.py",
+           "the list of value constraints of a selector (Call.all_values, which holds the receiver matcher) is built in a fresh list, never by extending the cached list of one of its (interned, shared) parts: "
+           "a second object-bound selector does not inherit the first one's receiver" + (f" -- {muts}" if muts else ""))
     # R13.3
     mt = [n for n in walk_local(rs.node) if isinstance(n, ast.If) and norm(n.test) == "isinstance(fn, types.MethodType)"]
     frs = facts_of(rs)
